@@ -43,4 +43,5 @@ def gen(tier, rng):
     yield nodegen.c15_multi_interval_script(rng, "interval-multi", combos)
     yield nodegen.c15_multi_interval_script(rng, "interval-multi-ka", combos[:20], own=(300, "1000"))
     yield nodegen.c15_learned_timeout_script(rng, "learned-timeout")
+    yield nodegen.keepalive_only_script(rng, "keepalive-only")
     yield nodegen.announce_script(rng, "announce", 100 if thorough else 40)          # keepalives / node information refresh the expiry; advertised timeouts vary
